@@ -68,6 +68,9 @@ def _ws_script(p):
         sc += [["send", {"type": "websocket.accept"}], ["wait", "late"], ["raise", "Exception"]]
     elif r == "never":
         sc += [["send", {"type": "websocket.accept"}]]
+    if p.get("ws_post") == "server_close_then_wait" and r in ("now", "never"):
+        # the server side has said goodbye (its send buffer is gone on HTTP/2) but the application still awaits its disconnect
+        sc += [["send", {"type": "websocket.close", "code": 1000}]]
     sc.append(["linger", 40.0])
     return sc
 
@@ -104,7 +107,14 @@ def gen(rng, tier):
                 p = _plan(rng, tag)
                 plans.append(p)
                 by_tag[str(tag)] = _http_script(p)
-                blob += fb.headers(1 + 2 * k, [(b":method", b"GET"), (b":scheme", b"http"), (b":path", b"/t%d" % tag), (b":authority", b"h")], end_stream=True)
+                if rng.random() < 0.25:
+                    # an upload the client never finishes: the response can be complete while the stream is still open
+                    p["read"] = "none"
+                    by_tag[str(tag)] = _http_script(p)
+                    blob += fb.headers(1 + 2 * k, [(b":method", b"POST"), (b":scheme", b"http"), (b":path", b"/t%d" % tag), (b":authority", b"h")], end_stream=False)
+                    blob += fb.data(1 + 2 * k, b"partial-body", end_stream=False)
+                else:
+                    blob += fb.headers(1 + 2 * k, [(b":method", b"GET"), (b":scheme", b"http"), (b":path", b"/t%d" % tag), (b":authority", b"h")], end_stream=True)
             client.append(["feed", bytes(blob)])
             reactor = {"kind": "h2", "credit": "auto"}
         else:
@@ -113,6 +123,7 @@ def gen(rng, tier):
             p["ws_pre"] = rng.choice([None, None, None, "raise_before_accept", "slow_accept"])
             if p["ws_pre"] == "raise_before_accept":
                 p["respond"] = "raise"
+            p["ws_post"] = rng.choice([None, None, "server_close_then_wait"])
             plans.append(p)
             by_tag[str(tag)] = _ws_script(p)
             if shape == "ws.h11":
